@@ -1,6 +1,7 @@
 open BinNums
 open BinPosDef
 open Datatypes
+open Decimal
 
 module Pos :
  sig
@@ -29,11 +30,19 @@ module Pos :
 
   val sub_mask_carry : positive -> positive -> mask
 
+  val mul : positive -> positive -> positive
+
   val compare_cont : comparison -> positive -> positive -> comparison
 
   val compare : positive -> positive -> comparison
 
   val eqb : positive -> positive -> bool
+
+  val of_succ_nat : nat -> positive
+
+  val to_little_uint : positive -> uint
+
+  val to_uint : positive -> uint
 
   val eq_dec : positive -> positive -> bool
  end
